@@ -423,133 +423,216 @@ def _classify_alloc_pattern(tree, call):
 
 
 _PYX_DEF = re.compile(r'^(?:def|cpdef|cdef)\s+(?:[\w\.\[\], ]+\s+)?(\w+)\s*\(')
-_PYX_AUG = re.compile(r'^\s*(\w+)\s*\[([^\]]*)\]\s*(\+=|-=|\*=|/=)')
-_PYX_SELF = re.compile(r'^\s*(\w+)\s*\[([^\]]*)\]\s*=\s*(.*)$')       # out[i] = out[i] + x
-_PYX_LOOP = re.compile(r'^\s*for\s+(\w+)\s+in\s+p?range\s*\((.*)\)\s*:\s*$')
-_PYX_BLOCK = re.compile(r'^\s*(if|elif|else|while|try|except|finally|for|with)\b')
+_ID = r'[A-Za-z_]\w*'
 
 
-def _loop_range(arg):
-    """normalised iteration space of `range(..)`/`prange(..)`: only a single positional bound is a full range"""
-    parts = [x.strip() for x in re.split(r',(?![^()]*\))', arg) if x.strip()]
-    pos = [x for x in parts if not re.match(r'^\w+\s*=', x)]
-    return re.sub(r'\s+', '', pos[0]) if len(pos) == 1 else None
+def _pyx_logical_lines(text):
+    """[(first line number, indent, statement)]: comments stripped, continuation lines (open brackets or a
+    trailing backslash) joined, blank lines dropped"""
+    out, buf, start, depth = [], '', None, 0
+    for no, raw in enumerate(text.split('\n'), 1):
+        l = re.sub(r'#.*$', '', raw).rstrip()
+        if not l.strip() and not buf:
+            continue
+        if not buf:
+            start, indent = no, len(l) - len(l.lstrip())
+            buf = l.strip()
+        else:
+            buf += ' ' + l.strip()
+        depth = buf.count('(') + buf.count('[') + buf.count('{') - buf.count(')') - buf.count(']') - buf.count('}')
+        if depth > 0 or buf.endswith('\\'):
+            buf = buf.rstrip('\\').rstrip()
+            continue
+        out.append((start, indent, re.sub(r'\s+', ' ', buf)))
+        buf = ''
+    if buf:
+        out.append((start, indent, re.sub(r'\s+', ' ', buf)))
+    return out
 
 
-def _enclosing(lines_by_no, no):
-    """headers of the blocks enclosing line `no` inside its function, innermost last: (indent, text)"""
-    ind = len(lines_by_no[no]) - len(lines_by_no[no].lstrip())
-    out = []
-    for k in range(no - 1, 0, -1):
-        l = lines_by_no.get(k)
-        if l is None:
+def _split_args(arg):
+    parts, depth, cur = [], 0, ''
+    for ch in arg:
+        if ch in '([{':
+            depth += 1
+        elif ch in ')]}':
+            depth -= 1
+        if ch == ',' and depth == 0:
+            parts.append(cur.strip())
+            cur = ''
+        else:
+            cur += ch
+    if cur.strip():
+        parts.append(cur.strip())
+    return parts
+
+
+def _canon_bound(expr, alias):
+    """iteration bound up to spelling: spaces, `X.shape[0]` = `len(X)`, single-assignment scalar aliases"""
+    e = re.sub(r'\s+', '', expr)
+    for _ in range(3):
+        e2 = re.sub(r'\b(%s)\.shape\[0\]' % _ID, r'len(\1)', e)
+        e2 = re.sub(r'\b(%s)\b' % _ID, lambda m: alias.get(m.group(1), m.group(1)), e2)
+        if e2 == e:
             break
-        if not l.strip():
-            continue
-        i2 = len(l) - len(l.lstrip())
-        if i2 < ind and l.rstrip().endswith(':'):
-            out.append((i2, l.strip()))
-            ind = i2
-    return list(reversed(out))
+        e = e2
+    return e
 
 
-def _index_space(lines_by_no, no, idx, conditional_ok=False):
-    """iteration space of the loop that drives the first index variable of a cell access at line `no`;
-    ('conditional', ..) when the line sits under an if / while / try, ('partial', ..) for a sliced range"""
-    first = re.split(r'[,\s]', idx.strip())[0]
-    space = None
-    for _, h in _enclosing(lines_by_no, no):
-        if re.match(r'^(def|cpdef|cdef)\b', h):
+def _scan_pyx_function(rel, fname, stmts):
+    """accumulating buffers of one function.  STRUCTURAL: what counts is the block structure, not spelling -
+    `for v in range(n)` / `prange(n, ...)` / `v = 0; while v < n: ...; v = v + 1` are all a full loop over n,
+    `with nogil:` / `with gil:` are transparent, declaration order and local names do not matter.
+      zerosAlloc      : `b = np.zeros(..)`                      (not under a condition)
+      computedBinding : `b = <expression>` other than np.empty / np.ndarray
+      zeroLoop        : `b[i,..] = 0` (or `b[:] = 0`, `b[...] = 0`, `b.fill(0)`), not under a condition, over
+                        full loops with the SAME bounds as the loops that drive the accumulation's indices
+      uninitialised   : anything else (a parameter accumulated into without zeroing, zeroing under an `if`,
+                        over a partial range, after the accumulation, np.empty, ...)"""
+    # scalar aliases: names assigned exactly once by a plain expression
+    counts, alias = {}, {}
+    for _, _, st in stmts:
+        m = re.match(r'^(?:cdef\s+[\w\s\.\*\[\],=]*?\s)?(%s)\s*(?:[-+*/]?=)(?!=)\s*(.+)$' % _ID, st)
+        if m and not re.match(r'^(for|while|if|elif|assert|return|with)\b', st):
+            counts[m.group(1)] = counts.get(m.group(1), 0) + 1
+            if re.match(r'^(?:cdef\s.*\s)?%s\s*=(?!=)' % re.escape(m.group(1)), st) and '[' not in m.group(2).replace('.shape[0]', ''):
+                alias[m.group(1)] = re.sub(r'\s+', '', m.group(2))
+    alias = {k: v for k, v in alias.items() if counts.get(k) == 1 and not re.fullmatch(r'[\d.]+', v)}
+    alias = {k: _canon_bound(v, {}) for k, v in alias.items()}
+
+    accums, state, seen = [], {}, set()
+    stack = []          # blocks: {'indent', 'kind': loop|cond|transparent, 'var', 'bound'}
+    n = len(stmts)
+    for k, (no, indent, st) in enumerate(stmts):
+        while stack and stack[-1]['indent'] >= indent:
+            stack.pop()
+        # ---- block headers ----
+        if st.endswith(':') and re.match(r'^(for|while|if|elif|else|try|except|finally|with)\b', st):
+            blk = {'indent': indent, 'kind': 'cond', 'var': None, 'bound': None}
+            m = re.match(r'^for (%s) in p?range\s*\((.*)\)\s*:$' % _ID, st)
+            if m:
+                pos = [x for x in _split_args(m.group(2)) if not re.match(r'^\w+\s*=', x)]
+                blk.update(kind='loop', var=m.group(1),
+                           bound=_canon_bound(pos[0], alias) if len(pos) == 1 else None)
+            elif re.match(r'^with\s+(nogil|gil)\s*:$', st):
+                blk['kind'] = 'transparent'
+            else:
+                m = re.match(r'^while (%s)\s*<\s*(.+?)\s*:$' % _ID, st)
+                if m:
+                    v = m.group(1)
+                    body = []
+                    for k2 in range(k + 1, n):
+                        if stmts[k2][1] <= indent:
+                            break
+                        body.append(stmts[k2])
+                    body_indent = body[0][1] if body else None
+                    top = [b for b in body if b[1] == body_indent]
+                    prev = stmts[k - 1] if k > 0 else None
+                    starts_at_zero = prev is not None and prev[1] == indent and re.match(
+                        r'^(?:cdef\s+[\w\s]+\s)?%s\s*=\s*0$' % re.escape(v), prev[2])
+                    incs = [b for b in body if re.match(r'^%s\s*(=\s*%s\s*\+\s*1|\+=\s*1)$' % (re.escape(v), re.escape(v)), b[2])]
+                    other_writes = [b for b in body if re.match(r'^%s\s*[-+*/]?=(?!=)' % re.escape(v), b[2]) and b not in incs]
+                    if starts_at_zero and top and len(incs) == 1 and incs[0] is top[-1] and not other_writes \
+                            and not any(re.match(r'^(break|continue)\b', b[2]) for b in body):
+                        blk.update(kind='loop', var=v, bound=_canon_bound(m.group(2), alias))
+            stack.append(blk)
             continue
-        m = _PYX_LOOP.match(h)
+        conditional = any(b['kind'] == 'cond' for b in stack)
+        loops = {b['var']: b['bound'] for b in stack if b['kind'] == 'loop'}
+
+        def extent(idx):
+            """bounds of the loops driving the index variables (None when an index is not a full-loop variable)"""
+            ext = []
+            for part in _split_args(idx):
+                part = part.strip()
+                if part not in loops or loops[part] is None:
+                    return None
+                ext.append(loops[part])
+            return tuple(ext)
+        # ---- whole-buffer binding ----
+        m = re.match(r'^(?:cdef\s+.*?[\]\w\*]\s+)?(%s)\s*=(?!=)\s*(.+)$' % _ID, st)
+        if m and not re.match(r'^(assert|return)\b', st):
+            b, rhs = m.group(1), m.group(2)
+            if not conditional:
+                if re.search(r'\bnp\.(empty_like|empty|ndarray)\s*\(', rhs):
+                    state[b] = ('uninitialised', None)
+                elif re.search(r'\bnp\.zeros(_like)?\s*\(', rhs):
+                    state[b] = ('zerosAlloc', None)
+                else:
+                    state[b] = ('computedBinding', None)
+            elif re.search(r'\bnp\.(empty_like|empty|ndarray)\s*\(', rhs):
+                state[b] = ('uninitialised', None)
+            continue
+        # ---- whole-buffer zero fill ----
+        m = re.match(r'^(%s)\s*(?:\[\s*(?::|\.\.\.)\s*\]\s*=\s*0(?:\.0*)?|\.fill\s*\(\s*0(?:\.0*)?\s*\))$' % _ID, st)
         if m:
-            if m.group(1) == first:
-                r = _loop_range(m.group(2))
-                space = ('full', r) if r is not None else ('partial', m.group(2))
+            if not conditional:
+                state[m.group(1)] = ('zeroLoop', 'whole')
             continue
-        if re.match(r'^with\s+(nogil|gil)\b', h):
+        # ---- cell statements ----
+        m = re.match(r'^(%s)\s*\[([^\]]*)\]\s*(\+=|-=|\*=|/=|=)(?!=)\s*(.*)$' % _ID, st)
+        if not m:
             continue
-        if conditional_ok and re.match(r'^(if|elif|else)\b', h):
-            continue                                     # accumulating under a condition is fine
-        return ('conditional', h)
-    return space if space is not None else ('scalar', first)
+        b, idx, op, rhs = m.group(1), m.group(2), m.group(3), m.group(4)
+        is_acc = op != '=' or re.search(r'(?<![\w.])%s\s*\[\s*%s\s*\]' % (re.escape(b), re.escape(idx.strip())), rhs)
+        if not is_acc:
+            if re.fullmatch(r'0(?:\.0*)?', rhs.strip()) and not conditional:
+                ext = extent(idx)
+                if ext is not None and b not in seen:
+                    state[b] = ('zeroLoop', ext)
+            continue
+        if b in seen:
+            continue
+        seen.add(b)
+        kind, ext0 = state.get(b, ('uninitialised', None))
+        if kind == 'zeroLoop' and ext0 != 'whole':
+            # conditions around the accumulation do not matter; its index space must be the zeroed one
+            if extent(idx) != ext0:
+                kind = 'uninitialised'
+        accums.append({'file': rel, 'line': no, 'func': fname, 'buffer': b, 'init': kind})
+    return accums
 
 
 def _scan_pyx(rel, text):
-    """(alloc sites, accumulating sites, where= lines) of a Cython file by line patterns (comments stripped).
-    An accumulation is a compound assignment into a cell, or `b[i] = b[i] <op> ..`.  The buffer counts as
-    initialised when, earlier in the same function and not under any if / while / try,
-      zeroLoop        : `b[i] = 0` runs over the SAME full iteration space as the accumulation, or
-      zerosAlloc      : `b = np.zeros(..)`, or
-      computedBinding : `b = <expression>` that is not np.empty / np.ndarray (e.g. `X.sum(axis=1)`)."""
-    lines = [re.sub(r'#.*$', '', l) for l in text.split('\n')]
-    funcs, cur = [], None
-    for no, l in enumerate(lines, 1):
-        m = _PYX_DEF.match(l)
-        if m and not l.startswith(('cdef extern', 'ctypedef')):
-            cur = {'name': m.group(1), 'start': no, 'lines': []}
-            funcs.append(cur)
-        elif cur is not None and l and not l[0].isspace() and l.strip():
-            cur = None            # left the function (new top-level statement)
-        if cur is not None:
-            cur['lines'].append((no, l))
+    """(alloc sites, accumulating sites, where= lines) of a Cython file.  Never raises: what cannot be
+    analysed becomes an `unrecognised:` entry that fails the obligation."""
     allocs, accums, wheres = [], [], []
-
-    def func_of(no):
-        return next((f['name'] for f in reversed(funcs)
-                     if f['start'] <= no and f['lines'] and f['lines'][-1][0] >= no), '<module>')
-    for no, l in enumerate(lines, 1):
-        m = re.search(r'\bnp\.(empty_like|empty|ndarray)\s*\(', l)
-        if m:
-            allocs.append({'file': rel, 'line': no, 'func': func_of(no), 'call': m.group(1), 'target': '?',
-                           'init': 'uninitialised'})
-        if re.search(r'\bwhere\s*=', l):
-            wheres.append({'file': rel, 'line': no, 'func': func_of(no), 'ufunc': '?pyx:' + l.strip()[:40],
-                           'hasOut': bool(re.search(r'\bout\s*=\s*np\.(zeros|ones|full)', l))})
+    try:
+        stmts = _pyx_logical_lines(text)
+    except Exception as e:  # noqa
+        return [], [{'file': rel, 'line': 0, 'func': 'unrecognised: %s' % type(e).__name__, 'buffer': '?',
+                     'init': 'uninitialised'}], []
+    funcs, cur = [], None
+    for no, indent, st in stmts:
+        m = _PYX_DEF.match(st) if indent == 0 else None
+        if m and not st.startswith(('cdef extern', 'ctypedef')):
+            cur = {'name': m.group(1), 'stmts': []}
+            funcs.append(cur)
+            continue
+        if indent == 0:
+            cur = None
+        if cur is not None:
+            cur['stmts'].append((no, indent, st))
+    fname_of = {}
     for f in funcs:
-        by_no = dict(f['lines'])
-        seen = set()
-        for no, l in f['lines']:
-            m = _PYX_AUG.match(l)
-            if not m:
-                m2 = _PYX_SELF.match(l)
-                if m2 and re.search(r'\b%s\s*\[\s*%s\s*\]' % (re.escape(m2.group(1)), re.escape(m2.group(2).strip())),
-                                    m2.group(3)):
-                    m = m2
-            if not m or m.group(1) in seen:
-                continue
-            buf, idx = m.group(1), m.group(2)
-            seen.add(buf)
-            acc_space = _index_space(by_no, no, idx, conditional_ok=True)
-            zero_cell = re.compile(r'^\s*%s\s*\[([^\]]*)\]\s*=\s*0(?:\.0*)?\s*$' % re.escape(buf))
-            bind = re.compile(r'(?:^|[\s\]])%s\s*=\s*(?!=)(.+)$' % re.escape(buf))
-            init = 'uninitialised'
-            for n2, l2 in f['lines']:
-                if n2 >= no:
-                    break
-                z = zero_cell.match(l2)
-                if z:
-                    zs = _index_space(by_no, n2, z.group(1))
-                    same_loop = (n2 < no and zs == acc_space and zs[0] == 'full')
-                    # zeroing at the top of the very loop body that accumulates (`out[i] = 0` then `out[i] += ..`)
-                    if same_loop or (zs[0] == 'full' and acc_space[0] == 'full' and zs[1] == acc_space[1]):
-                        init = 'zeroLoop'
-                    continue
-                bm = bind.search(l2)
-                if bm and not re.match(r'^\s*(if|elif|while|assert|return)\b', l2):
-                    cond = any(not (_PYX_LOOP.match(h) or re.match(r'^with\s+(nogil|gil)\b', h)
-                                    or re.match(r'^(def|cpdef|cdef)\b', h))
-                               for _, h in _enclosing(by_no, n2))
-                    rhs = bm.group(1)
-                    if cond:
-                        continue
-                    if re.search(r'\bnp\.zeros\s*\(', rhs):
-                        init = 'zerosAlloc'
-                    elif re.search(r'\bnp\.(empty|empty_like|ndarray)\s*\(', rhs):
-                        init = 'uninitialised'
-                    else:
-                        init = 'computedBinding'
-            accums.append({'file': rel, 'line': no, 'func': f['name'], 'buffer': buf, 'init': init})
+        for no, _, _ in f['stmts']:
+            fname_of[no] = f['name']
+    for no, indent, st in stmts:
+        m = re.search(r'\bnp\.(empty_like|empty|ndarray)\s*\(', st)
+        if m:
+            allocs.append({'file': rel, 'line': no, 'func': fname_of.get(no, '<module>'), 'call': m.group(1),
+                           'target': '?', 'init': 'uninitialised'})
+        if re.search(r'\bwhere\s*=', st):
+            wheres.append({'file': rel, 'line': no, 'func': fname_of.get(no, '<module>'),
+                           'ufunc': '?pyx:' + st[:40],
+                           'hasOut': bool(re.search(r'\bout\s*=\s*np\.(zeros|ones|full)', st))})
+    for f in funcs:
+        try:
+            accums += _scan_pyx_function(rel, f['name'], f['stmts'])
+        except Exception as e:  # noqa
+            accums.append({'file': rel, 'line': f['stmts'][0][0] if f['stmts'] else 0,
+                           'func': 'unrecognised: %s in %s' % (type(e).__name__, f['name']), 'buffer': '?',
+                           'init': 'uninitialised'})
     return allocs, accums, wheres
 
 
@@ -567,19 +650,24 @@ def scan_sources(repo_dir):
                     src = f.read()
                 try:
                     tree = ast.parse(src)
-                except SyntaxError:
+                    v = _SiteVisitor(rel)
+                    v.visit(tree)
+                except Exception as e:  # noqa  (unparsable module: nothing can be said about it)
+                    ufunc_sites.append({'file': rel, 'line': 0, 'func': '<module>',
+                                        'ufunc': 'unrecognised: %s' % type(e).__name__, 'hasOut': False})
                     continue
-                v = _SiteVisitor(rel)
-                v.visit(tree)
                 ufunc_sites += v.ufunc_sites
                 other_where += v.other_where
                 for call, fn_name, attr in v.alloc_calls:          # every module, not only the anchors
-                    t, kind = _classify_alloc(tree, call)
+                    try:
+                        t, kind = _classify_alloc(tree, call)
+                    except Exception as e:  # noqa
+                        t, kind = 'unrecognised: %s' % type(e).__name__, 'uninitialised'
                     allocs.append({'file': rel, 'line': call.lineno, 'func': fn_name, 'call': attr,
                                    'target': t, 'init': kind})
             elif fn.endswith('.pyx'):
                 with open(p, encoding='utf-8', errors='replace') as f:
-                    a, c, w = _scan_pyx(rel, f.read())
+                    a, c, w = _scan_pyx(rel, f.read())        # never raises
                 allocs += a
                 accums += c
                 ufunc_sites += w
@@ -597,7 +685,12 @@ def _quiet_openmp():
 
 def translate(repo_dir, gen_dir):
     _quiet_openmp()
-    ufunc_sites, other_where, allocs, accums = scan_sources(repo_dir)
+    try:
+        ufunc_sites, other_where, allocs, accums = scan_sources(repo_dir)
+    except Exception as e:  # noqa   never raise: an unanalysable tree fails the obligation instead
+        ufunc_sites = [{'file': 'enspara', 'line': 0, 'func': '<tree>',
+                        'ufunc': 'unrecognised: %s: %s' % (type(e).__name__, str(e)[:80]), 'hasOut': False}]
+        other_where, allocs, accums = [], [], []
     out = []
     out.append('/-! GENERATED by harness/props/c19.py `translate` from the source tree on every run - do not edit.')
     out.append('`sites`: every call of a numpy ufunc carrying `where=` in enspara/**/*.py (tests excluded).')
@@ -2886,6 +2979,20 @@ def _source_obligation_targets():
     return bad, targets
 
 
+def _guard(ctx, what, replay, fn, *a, **kw):
+    """run one piece of instrumentation; an exception in the HARNESS (not in the routine under test, those are
+    outcomes) must never end the check with exit 2: it is reported as a disagreement with what was being done"""
+    try:
+        return fn(*a, **kw)
+    except (KeyboardInterrupt, SystemExit):
+        raise
+    except Exception as e:  # noqa
+        import traceback
+        ctx.disagreement('instrumentation error while %s: %s: %s' % (what, type(e).__name__, str(e)[:200]),
+                         dict(replay, traceback=traceback.format_exc()[-1500:]))
+        return None
+
+
 def run(ctx):
     rng = ctx.rng
     ctl = _controller()
@@ -2905,7 +3012,7 @@ def run(ctx):
             if k not in found:
                 ctx.disagreement('Model/Masked.lean mirrors kernel %s:%s (buffer %s) which the source no longer has'
                                  % k, {'missing_kernel': list(k)})
-    model_correspondence(ctx)
+    _guard(ctx, 'comparing the Lean models with the real kernels', {}, model_correspondence, ctx)
     if poison_allocator() is None:
         ctx.skip('poisoning allocator could not be built (%s): heap histories only' % _ALLOC.get('error'))
     else:
@@ -2917,15 +3024,29 @@ def run(ctx):
     reps = 6 if not ctx.thorough else 32
     rounds = ctx.n(1, 5)
     jobs = []
-    order = [r for r in sorted(ROUTINES) if r not in WORKERS]
+    order = []
+    for r in sorted(ROUTINES):
+        try:
+            resolve(r)
+        except Exception as e:  # noqa   (renamed / removed entry point: the table no longer drives it)
+            ctx.disagreement('API table routine %s cannot be resolved (%s: %s)' % (r, type(e).__name__, e),
+                             {'routine': r, 'unresolved': True})
+            continue
+        if r not in WORKERS:
+            order.append(r)
     wplan = worker_jobs(rng, ctx.thorough)
     nvar = ctx.n(2, 4)
     nhist = ctx.n(6, 8)
     for rd in range(rounds):
         for routine in order:
-            sets = GENS[routine](rng, ctx.thorough and rd % 2 == 1)
+            sets = _guard(ctx, 'generating arguments for ' + routine, {'routine': routine},
+                          GENS[routine], rng, ctx.thorough and rd % 2 == 1) or []
             for label, args, kwargs in sets:
-                b = check_argset(ctx, routine, label, args, kwargs, reps=reps)
+                b = _guard(ctx, 'checking %s [%s]' % (routine, label),
+                           {'routine': routine, 'label': label, 'args': args, 'kwargs': kwargs},
+                           check_argset, ctx, routine, label, args, kwargs, reps=reps)
+                if b is None:
+                    continue
                 if len(jobs) < 4000 and len(json.dumps(args)) < 200000:
                     jobs.append({'routine': routine, 'label': label, 'args': args, 'kwargs': kwargs, '_base': b})
             # class 2 / 6: every argument in another dtype / container / layout, and all arguments by name
@@ -2934,8 +3055,12 @@ def run(ctx):
             for label, args, kwargs in sets:
                 if routine in WORKERS or len(json.dumps(args)) > 200000 or (label, args, kwargs) in picks:
                     continue
-                for vname, a2, k2 in argument_variants(rng, routine, args, kwargs, 1, dtype_only=True):
-                    check_argset(ctx, routine, 'variant:%s:%s' % (label, vname), a2, k2, reps=reps,
+                for vname, a2, k2 in (_guard(ctx, 'building variants of %s [%s]' % (routine, label),
+                                             {'routine': routine, 'label': label}, argument_variants,
+                                             rng, routine, args, kwargs, 1, dtype_only=True) or []):
+                    _guard(ctx, 'checking %s [variant:%s:%s]' % (routine, label, vname),
+                           {'routine': routine, 'label': 'variant:%s:%s' % (label, vname), 'args': a2, 'kwargs': k2},
+                           check_argset, ctx, routine, 'variant:%s:%s' % (label, vname), a2, k2, reps=reps,
                                  perturbations=[{'kind': 'repeat'}] +
                                  ([{'kind': 'alloc', 'fill': f} for f in
                                    (('nan', 'inf', 'aa') if vname.split(':')[-1] in _SCALE_VARIANTS else ('nan',))]
@@ -2947,9 +3072,15 @@ def run(ctx):
                     continue
                 if routine in WORKERS:
                     continue
-                for vname, a2, k2 in argument_variants(rng, routine, args, kwargs, nvar):
-                    b = check_argset(ctx, routine, 'variant:%s:%s' % (label, vname), a2, k2, reps=reps,
-                                     perturbations=None if ctx.thorough else light_perturbations(routine))
+                for vname, a2, k2 in (_guard(ctx, 'building variants of %s [%s]' % (routine, label),
+                                             {'routine': routine, 'label': label}, argument_variants,
+                                             rng, routine, args, kwargs, nvar) or []):
+                    b = _guard(ctx, 'checking %s [variant:%s:%s]' % (routine, label, vname),
+                               {'routine': routine, 'label': 'variant:%s:%s' % (label, vname), 'args': a2, 'kwargs': k2},
+                               check_argset, ctx, routine, 'variant:%s:%s' % (label, vname), a2, k2, reps=reps,
+                               perturbations=None if ctx.thorough else light_perturbations(routine))
+                    if b is None:
+                        continue
                     ctx.tag('variant=' + vname.split(':')[-1])
                     if len(jobs) < 4000:
                         jobs.append({'routine': routine, 'label': 'variant:%s:%s' % (label, vname), 'args': a2,
@@ -2957,22 +3088,35 @@ def run(ctx):
             # class 5: object reuse and call history
             for label, args, kwargs in [sets[int(i)] for i in rng.permutation(len(sets))[:nhist]]:
                 if len(json.dumps(args)) < 200000 and routine not in WORKERS:
-                    check_history(ctx, routine, label, args, kwargs)
+                    _guard(ctx, 'history check of %s [%s]' % (routine, label),
+                           {'routine': routine, 'label': label, 'args': args, 'kwargs': kwargs},
+                           check_history, ctx, routine, label, args, kwargs)
     # probabilities / weights / counts whose products underflow or overflow
-    for routine, label, args, kwargs in extreme_scale_sets(rng, ctx.thorough):
-        b = check_argset(ctx, routine, 'corner:extreme-scale:' + label, args, kwargs, reps=reps,
-                         perturbations=[p for p in perturbation_list(ctx.thorough, routine)
-                                        if ctx.thorough or p['kind'] != 'threads'])
+    for routine, label, args, kwargs in (_guard(ctx, 'generating extreme-scale sets', {}, extreme_scale_sets,
+                                                rng, ctx.thorough) or []):
+        if routine not in order:
+            continue
+        b = _guard(ctx, 'checking %s [%s]' % (routine, label),
+                   {'routine': routine, 'label': label, 'args': args, 'kwargs': kwargs},
+                   check_argset, ctx, routine, 'corner:extreme-scale:' + label, args, kwargs, reps=reps,
+                   perturbations=[p for p in perturbation_list(ctx.thorough, routine)
+                                  if ctx.thorough or p['kind'] != 'threads'])
         ctx.tag('family=extreme-scale')
     # compiled kernels at extreme shapes under every team size
     for rd in range(ctx.n(1, 3)):
-        for routine, label, args, kwargs in kernel_extremes(rng, ctx.thorough):
-            check_threads(ctx, routine, label, args, kwargs)
+        for routine, label, args, kwargs in (_guard(ctx, 'generating kernel extremes', {}, kernel_extremes,
+                                                    rng, ctx.thorough) or []):
+            if routine in order:
+                _guard(ctx, 'thread sweep of %s [%s]' % (routine, label),
+                       {'routine': routine, 'label': label, 'args': args, 'kwargs': kwargs},
+                       check_threads, ctx, routine, label, args, kwargs)
     # a site the obligations reject: concentrate the heap histories on the routines that reach it
     for routine in targets:
         for rd in range(12):
-            for label, args, kwargs in GENS[routine](rng, rd % 2 == 1):
-                check_argset(ctx, routine, label, args, kwargs, reps=32,
+            for label, args, kwargs in (GENS[routine](rng, rd % 2 == 1) if routine in order else []):
+                _guard(ctx, 'targeted search on %s [%s]' % (routine, label),
+                       {'routine': routine, 'label': label, 'args': args, 'kwargs': kwargs},
+                       check_argset, ctx, routine, label, args, kwargs, reps=32,
                              perturbations=[{'kind': 'heap', 'fill': k} for k in POISONS] +
                              ([{'kind': 'alloc', 'fill': k} for k in ALLOC_PATTERNS] if poison_allocator() else []))
                 ctx.tag('targeted-search')
@@ -3000,6 +3144,10 @@ def run(ctx):
             except subprocess.TimeoutExpired:
                 ctx.skip('fresh-process run (MALLOC_PERTURB_=%s) did not finish in time: not evaluated' % perturb)
                 continue
+            except Exception as e:  # noqa   (the child interpreter died or answered garbage)
+                ctx.disagreement('fresh-process run (MALLOC_PERTURB_=%s) failed: %s' % (perturb, str(e)[:300]),
+                                 {'fresh_process_failed': True, 'perturb': perturb})
+                continue
             outs = outs_all[:len(jobs)]
             if rnd == 0:
                 k = len(jobs)
@@ -3022,11 +3170,12 @@ def run(ctx):
     ctx.note('outcomes_by_routine', {r: OUTCOMES.get(r, {}) for r in sorted(ROUTINES)})
     import stage as _stage
     ctx.note('public_functions_not_in_api_table', public_api_audit(_stage.REPO))
-    dead = [r for r in sorted(ROUTINES) if OUTCOMES.get(r, {}).get('value', 0) == 0]
-    if dead:
-        # a routine of the table that no longer returns a value for ANY generated input has silently
-        # dropped out of the check (renamed argument, changed signature, ...): that is harness trouble
-        raise RuntimeError('API table routines without a single successful call: %s' % dead)
+    dead = [r for r in order + list(WORKERS) if OUTCOMES.get(r, {}).get('value', 0) == 0]
+    for r in dead:
+        # a routine of the table that no longer returns a value for ANY generated input has silently dropped
+        # out of the check (renamed argument, changed signature, ...)
+        ctx.disagreement('API table routine %s did not return a value for any generated input' % r,
+                         {'routine': r, 'no_successful_call': True})
     ctx.note('heap_poison_reps', reps)
 
 
@@ -3039,6 +3188,10 @@ def replay(ctx, case):
             ctx.disagreement('model answer changed for a recorded request', dict(case, model_now=r))
         else:
             ctx.disagreement('recorded model/implementation disagreement (re-run the full check to re-evaluate)', case)
+        return
+    if any(k in case for k in ('unresolved', 'no_successful_call', 'fresh_process_failed', 'traceback')) \
+            and 'args' not in case:
+        ctx.disagreement('recorded instrumentation problem (re-run the full check to re-evaluate)', case)
         return
     if 'missing_kernel' in case:
         ctx.disagreement('recorded: a modelled kernel is missing from the source', case)
